@@ -19,6 +19,8 @@ def error_blocks(fn):
         t = fn.blocks[b]["t"]
         if t["k"] == "call" and t["f"].get("name") == "from_residual" and t["dest"][0] == 0:
             out.add(b)
+    # error exits of helpers spliced in by Facts.inlined whose result the caller propagates with `?`
+    out |= set(fn.d.get("inlined_error_blocks") or ())
     return out
 
 
